@@ -655,6 +655,16 @@ mod c21 {
                         verif::release(hooks::PAUSE_BEFORE_INBOX_CLOSE, 1);
                     }
                 }
+                "cancel" => {
+                    hev("cancel", &[]);
+                    self.map.cancel();
+                }
+                "netchange" => {
+                    // one NetworkChange message per sender in the map (the model numbers one per remote)
+                    hev("net_change", &[]);
+                    self.next_m += self.ids.len() as u64;
+                    self.map.on_network_change(true);
+                }
                 "lookup_item" => {
                     let id = rid(op.r, &self.ids);
                     let a = TransportAddr::Ip(SocketAddr::V4(SocketAddrV4::new(Ipv4Addr::new(10, 9, 0, op.r as u8), 9000)));
